@@ -333,3 +333,14 @@ def replay(ctx, payload):
         return tzshared.replay_ical_stated(payload)
     return _replay_without_ical_stated(ctx, payload)
 # --- end of the appended block
+
+
+# --- translator tie for tzutc / tzoffset (wt-tzfile): their methods and tzoffset.__init__ are re-translated from tz/tz.py on every run
+# (harness/translate_tzhelp.py -> Generated/TzFixedKernels.lean; obligations in Properties/TzFixedGen.lean) and validated by tzhelp.fixed / tzhelp.utc
+_correspondence_without_tzfixed = correspondence
+
+
+def correspondence(ctx):
+    _correspondence_without_tzfixed(ctx)
+    import tzhelplib
+    tzhelplib.validate_fixed(ctx)
